@@ -5,6 +5,7 @@ import (
 	"maps"
 	"os"
 	"path/filepath"
+	"slices"
 	"sort"
 	"sync"
 
@@ -24,15 +25,22 @@ type Limits struct {
 	MaxIncludeDepth  int
 }
 
+// cachedFile is the parse of one included file: its journal and its parse errors.
+// The includes of a cached file are still followed on every load.
+type cachedFile struct {
+	journal *ast.Journal
+	errors  []LoadError
+}
+
 type Loader struct {
 	mu     sync.RWMutex
-	cache  map[string]*ast.Journal
+	cache  map[string]cachedFile
 	limits Limits
 }
 
 func NewLoader() *Loader {
 	return &Loader{
-		cache:  make(map[string]*ast.Journal),
+		cache:  make(map[string]cachedFile),
 		limits: DefaultLimits(),
 	}
 }
@@ -112,6 +120,10 @@ func (l *Loader) LoadFromContent(path, content string) (*ResolvedJournal, []Load
 // loadWithContent loads the journal at path; depth is the number of include
 // directives between the root journal and path.
 func (l *Loader) loadWithContent(path, content string, visited map[string]bool, depth int) (*ResolvedJournal, []LoadError) {
+	return l.loadParsed(path, parseFile(path, content), visited, depth)
+}
+
+func parseFile(path, content string) cachedFile {
 	var errors []LoadError
 
 	journal, parseErrs := parser.Parse(content)
@@ -128,6 +140,13 @@ func (l *Loader) loadWithContent(path, content string, visited map[string]bool, 
 			Range:   ast.Range{Start: pos, End: pos},
 		})
 	}
+
+	return cachedFile{journal: journal, errors: errors}
+}
+
+func (l *Loader) loadParsed(path string, file cachedFile, visited map[string]bool, depth int) (*ResolvedJournal, []LoadError) {
+	journal := file.journal
+	errors := slices.Clone(file.errors)
 
 	result := NewResolvedJournal(journal)
 	// visited[p] is true while p is being included (p is on the include stack) and
@@ -198,45 +217,47 @@ func (l *Loader) loadSingleInclude(
 		return errors
 	}
 
+	// A cache hit only saves reading and parsing the file.
 	l.mu.RLock()
-	cached, ok := l.cache[includePath]
+	file, ok := l.cache[includePath]
 	l.mu.RUnlock()
-	if ok {
-		result.Files[includePath] = cached
-		result.FileOrder = append(result.FileOrder, includePath)
-		return errors
-	}
+	if !ok {
+		info, err := os.Stat(includePath)
+		if err != nil {
+			errors = append(errors, LoadError{
+				Kind:    ErrorFileNotFound,
+				Path:    includePath,
+				Message: fmt.Sprintf("cannot read included file: %v", err),
+				Range:   incRange,
+			})
+			return errors
+		}
 
-	info, err := os.Stat(includePath)
-	if err != nil {
-		errors = append(errors, LoadError{
-			Kind:    ErrorFileNotFound,
-			Path:    includePath,
-			Message: fmt.Sprintf("cannot read included file: %v", err),
-			Range:   incRange,
-		})
-		return errors
-	}
+		if info.Size() > limits.MaxFileSizeBytes {
+			errors = append(errors, LoadError{
+				Kind:    ErrorFileTooLarge,
+				Path:    includePath,
+				Message: fmt.Sprintf("included file too large: %d bytes (max %d)", info.Size(), limits.MaxFileSizeBytes),
+				Range:   incRange,
+			})
+			return errors
+		}
 
-	if info.Size() > limits.MaxFileSizeBytes {
-		errors = append(errors, LoadError{
-			Kind:    ErrorFileTooLarge,
-			Path:    includePath,
-			Message: fmt.Sprintf("included file too large: %d bytes (max %d)", info.Size(), limits.MaxFileSizeBytes),
-			Range:   incRange,
-		})
-		return errors
-	}
+		incContent, err := os.ReadFile(includePath)
+		if err != nil {
+			errors = append(errors, LoadError{
+				Kind:    ErrorFileNotFound,
+				Path:    includePath,
+				Message: fmt.Sprintf("cannot read included file: %v", err),
+				Range:   incRange,
+			})
+			return errors
+		}
 
-	incContent, err := os.ReadFile(includePath)
-	if err != nil {
-		errors = append(errors, LoadError{
-			Kind:    ErrorFileNotFound,
-			Path:    includePath,
-			Message: fmt.Sprintf("cannot read included file: %v", err),
-			Range:   incRange,
-		})
-		return errors
+		file = parseFile(includePath, string(incContent))
+		l.mu.Lock()
+		l.cache[includePath] = file
+		l.mu.Unlock()
 	}
 
 	// The limit bounds the length of a chain of includes, not the number of files:
@@ -251,18 +272,13 @@ func (l *Loader) loadSingleInclude(
 		return errors
 	}
 
-	subResult, subErrors := l.loadWithContent(includePath, string(incContent), visited, depth+1)
+	subResult, subErrors := l.loadParsed(includePath, file, visited, depth+1)
 	errors = append(errors, subErrors...)
 
-	if subResult != nil && subResult.Primary != nil {
-		l.mu.Lock()
-		l.cache[includePath] = subResult.Primary
-		l.mu.Unlock()
-		result.Files[includePath] = subResult.Primary
-		result.FileOrder = append(result.FileOrder, includePath)
-		maps.Copy(result.Files, subResult.Files)
-		result.FileOrder = append(result.FileOrder, subResult.FileOrder...)
-	}
+	result.Files[includePath] = subResult.Primary
+	result.FileOrder = append(result.FileOrder, includePath)
+	maps.Copy(result.Files, subResult.Files)
+	result.FileOrder = append(result.FileOrder, subResult.FileOrder...)
 
 	return errors
 }
@@ -301,7 +317,7 @@ func (l *Loader) expandGlob(basePath, pattern string) ([]string, error) {
 func (l *Loader) ClearCache() {
 	l.mu.Lock()
 	defer l.mu.Unlock()
-	l.cache = make(map[string]*ast.Journal)
+	l.cache = make(map[string]cachedFile)
 }
 
 func (l *Loader) InvalidateFile(path string) {
